@@ -144,7 +144,33 @@ def pair_class(region_a, region_b):
 KIND_WEIGHTS = "SSSSSSCCDDNMUUVEW"
 
 
-def make_pair(rng, curved_prob=0.25, kinds=None, size=10.0):
+def make_pair(rng, curved_prob=0.25, kinds=None, size=10.0, prefer_crossing=0.5):
+    """operand pair; with probability `prefer_crossing` up to four placements are tried until the
+    oracle classifies the boundaries as crossing (so that the interesting stratum is well filled)"""
+    if rng.random() < prefer_crossing:
+        best = None
+        for _ in range(4):
+            sa, sb, info = _make_pair(rng, curved_prob, kinds, size)
+            if sa["t"] in ("empty", "whole") or sb["t"] in ("empty", "whole"):
+                return sa, sb, info
+            if spec_curved_any(sa, sb):
+                return sa, sb, info   # classification of curved pairs is costly: keep the first
+            try:
+                cls = pair_class(S.snap_shape(G.build(sa)), S.snap_shape(G.build(sb)))
+            except Exception:
+                return sa, sb, info
+            best = (sa, sb, info)
+            if cls["class"] == "crossing":
+                return sa, sb, info
+        return best
+    return _make_pair(rng, curved_prob, kinds, size)
+
+
+def spec_curved_any(sa, sb):
+    return G.spec_is_curved(sa) or G.spec_is_curved(sb)
+
+
+def _make_pair(rng, curved_prob=0.25, kinds=None, size=10.0):
     ka = rng.choice(kinds or KIND_WEIGHTS)
     kb = rng.choice(kinds or KIND_WEIGHTS)
     curved = rng.random() < curved_prob
